@@ -24,9 +24,21 @@ ASSUMPTIONS = ["host threads properly nested, no zero-duration host events, no h
 def gen_cases(seed, tier, n):
     out = []
     for i in range(n):
-        c = tracegen.gen_case(seed, i, tracegen.PROFILES["kseq"])
+        # every fourth case has an autograd thread beside the main thread (operators occur on both; the main thread may itself hold
+        # an autograd:: operator): the backward attachment decides under which operator a kernel is counted
+        c = tracegen.gen_case(seed, i, tracegen.PROFILES["kseq_bwd" if i % 4 == 1 else "kseq"])
         rng = random.Random(seed * 7919 + i)
         c["params"] = {"pseed": rng.randint(0, 10 ** 9)}
+        if i % 8 == 1:
+            # ... and here the main thread certainly holds one: a leaf operator of the thread with the profiler steps is renamed
+            for rk in c["ranks"].values():
+                steps = [e for e in rk["events"] if str(e.get("name", "")).startswith("ProfilerStep#")]
+                if not steps:
+                    continue
+                pt = (steps[0]["pid"], steps[0]["tid"])
+                ops = [e for e in rk["events"] if e.get("cat") == "cpu_op" and (e.get("pid"), e.get("tid")) == pt and "dur" in e]
+                if ops:
+                    rng.choice(ops)["name"] = "autograd::engine::evaluate_function: AddBackward0"
         if i % 3 == 0:
             # twin kernels: the same kernel name with the same start and duration on another stream, launched by a call
             # whose span is identical to the original launch call's (identical spans nest in file order)
@@ -62,18 +74,26 @@ def gen_cases(seed, tier, n):
                             e2["args"]["correlation"] = e2["args"]["correlation"] + rep * 100000
                         extra.append(e2)
                 rk["events"] = evs + extra
+        if i % 8 == 6:
+            fw.set_quarter_us(c)           # quarter-microsecond resolution (framework.resolution)
         out.append(c)
     return out
 
 
 def run_impl(case, d):
+    with fw.resolution(case):
+        return _run_impl(case, d)
+
+
+def _run_impl(case, d):
     import os
-    ta, paths = fw.load_case(case, d)
+    scale = fw.time_scale(case)
+    ta, paths = fw.load_case_res(case, d)
     sym = ta.t.symbol_table.get_sym_table()
     ranks = sorted(ta.t.get_ranks())
     rng = random.Random(case["params"]["pseed"])
     rank = rng.choice(ranks)
-    rows = fw.dump_frame(ta.t.get_trace(rank), sym)
+    rows = fw.dump_frame_res(case, ta.t.get_trace(rank), sym)
     names = sorted({r["name"] for r in rows if r["stream"] == -1 and r["cat"] == "cpu_op"})
     ops = rng.sample(names, min(3, len(names))) + ["no::such_op"]
     # names with characters that mean something in a regular expression (the operator name is matched as a plain substring), whole and in part
@@ -95,7 +115,7 @@ def run_impl(case, d):
         topk = rng.randint(1, 5)
         try:
             df = ta.get_frequent_cuda_kernel_sequences(operator_name=op, output_dir=outdir, min_pattern_len=minlen, rank=rank, top_k=topk, visualize=False)
-            res = [[str(rec["pattern"]), fw.as_int(rec["count"]), fw.as_int(rec["GPU kernel duration (us)"]), fw.as_int(rec["CPU op duration (us)"])]
+            res = [[str(rec["pattern"]), fw.as_int(rec["count"]), fw.as_int(rec["GPU kernel duration (us)"] * scale), fw.as_int(rec["CPU op duration (us)"] * scale)]
                    for rec in df.to_dict("records")] if len(df) else []
         except Exception as e:
             import traceback
